@@ -385,7 +385,7 @@ def WaitGpSpec (trk : Bool) (waitgp : Stmt) (MPre : (Loc → Option Val) → Pro
 
 /-- the precondition of the master barrier does not depend on the words the updater itself stores -/
 def MStable (MPre : (Loc → Option Val) → Prop) : Prop :=
-  ∀ priv l v, (l = gpFutex ∨ l = gpCtr ∨ l = .field (.glob "&wait") "state") → MPre priv →
+  ∀ priv l v, (l = gpFutex ∨ l = gpCtr ∨ (l = .field (.glob "&wait") "state" ∧ ∃ n : Int, v = .int n)) → MPre priv →
     MPre (fun m => if m = l then some v else priv m)
 
 /-! ## the statements of one retry iteration -/
